@@ -15,6 +15,7 @@ EXPLANATION = (
     "uses the for_storage config (exclude, floor 0.2), engine fallback = take(count) of the distance order; (5) RANK-KEY — the "
     "distance feeding the score must not be a lossy projection of the 256-bit XOR distance."
     " (6) CLOSEST-ORDER — without trust selection the choice is the routing table's closest-node answer: C02's TOTAL-SCAN / ORDER obligations (all buckets scanned, ascending sort on the full 32-byte XOR distance, take(count)) are evaluated here too."
+    ' REASONS also decides mark-removed-by: the explicit-rejection table (marked_for_eviction) is shrunk only by EvictionManager::remove_node (closed world over remove / clear / retain / drain on it).'
 )
 NOT_DECIDED = "ranking over all (distance, trust) float pairs beyond the projection check; timing of eviction w.r.t. lookups"
 ASSUMPTIONS = ["Vec::retain removes every matching element", "slice::sort_by is stable"]
@@ -143,7 +144,33 @@ def run(ctx):
     okit = all(m in total for m in ('marked_for_eviction', 'liveness_states', 'trust_scores'))
     calls_reason = len([c for c in gc.calls() if c.callee == EM + '::get_eviction_reason']) >= 2
     ctx.ob('REASONS', 'candidates:all-maps', okit and calls_reason, gc.where(), 'get_eviction_candidates iterates marked, liveness and trust maps and asks get_eviction_reason: %s / %s' % (okit, calls_reason))
-    ctx.floor('REASONS', 6)
+    # "explicitly rejected" ends only when the node is forgotten: the mark table is shrunk by remove_node alone (and filled by
+    # record_eviction alone) — a mark dropped anywhere else (on a trust update, a success, a sweep) lets a rejected peer leave
+    # the candidate set without ever having been removed
+    nshrink = 0
+    for b in prog.bodies.in_files(['src/dht/routing_maintenance/eviction.rs']):
+        if b.is_test if hasattr(b, 'is_test') else False:
+            continue
+        for c in b.calls(r'HashMap::<.*>::(remove|remove_entry|clear|retain|drain|extract_if)$|Entry<.*>::(remove|remove_entry)$|OccupiedEntry<.*>::(remove|remove_entry)$'):
+            if not c.args or 'marked_for_eviction' not in b.expr(c.args[0]).show():
+                continue
+            owners = prog.owner_roots(b.root)
+            okw = owners == {EM + '::remove_node'}
+            nshrink += 1
+            ctx.ob('REASONS', 'mark-removed-by:%s' % b.root.rsplit('::', 1)[-1], okw, c.where(),
+                   'the eviction mark is removed in %s (forgetting the node)' % b.root.rsplit('::', 1)[-1] if okw else
+                   '%s removes an explicit eviction mark although the node is not being forgotten: an explicitly rejected peer stops being an eviction candidate' % b.root)
+        if b.root != EM + '::remove_node':
+            for bi_, si_, s_ in b.stmts():
+                r_ = s_['r']
+                if r_['k'] == 'ref' and r_.get('m') == 'mut' and any(isinstance(x, str) and x.endswith('::marked_for_eviction') for x in r_['p'][1:]):
+                    uses = [c for c in b.calls() if c.bb >= 0 and c.args and 'p' in c.args[0] and c.args[0]['p'][0] == s_['d'][0]]
+                    for c in uses:
+                        if not re.search(r'::(insert|get|get_mut|contains_key|iter|len|is_empty|entry)$', c.callee) and not re.search(r'::(remove|remove_entry|clear|retain|drain|extract_if)$', c.callee):
+                            ctx.ob('REASONS', 'mark-table-mut-use:%s' % b.root.rsplit('::', 1)[-1], False, c.where(), 'the mark table is handed mutably to %s in %s (not classified)' % (c.callee, b.root))
+    if not nshrink:
+        ctx.anchor_fail('REASONS', 'the removal of the eviction mark in remove_node')
+    ctx.floor('REASONS', 7)
 
     # ---- 3. removal paths
     for name in ('evict_node', 'handle_node_failure'):
